@@ -59,14 +59,17 @@ func TestVerifC09Thresholds(t *testing.T) {
 			params.FanoutTTL = time.Minute
 			params.MaxIHaveMessages = 100
 			nP := c.Range(4, 10)
-			w := gsNewWorld(c, gsConfig{params: params, th: th, scoring: true, nPups: nP + 1, floodSub: 0,
+			w := gsNewWorld(c, gsConfig{params: params, th: th, scoring: true, nPups: nP, floodSub: 0,
 				opts: []Option{WithPeerExchange(true), WithMessageIdFn(func(m *pb.Message) string { return string(m.Data) })}})
 			if w == nil {
 				return
 			}
 			defer w.Close()
 			nd := w.nd
-			obs := w.pups[nP] // observer: good score, in the mesh
+			// observer: a floodsub-protocol peer with a good score is forwarded every accepted message, whatever the mesh looks like
+			obs := &gsPup{p: w.r.NewPuppet("obs", FloodSubID, ""), proto: FloodSubID, subbed: map[string]bool{}}
+			w.pups = append(w.pups, obs)
+			w.byID[obs.p.ID()] = obs
 			pups := w.pups[:nP]
 			pool := []float64{grayTh - 0.5, grayTh, grayTh + 0.25, publishTh - 0.5, publishTh, gossipTh - 0.25, gossipTh, gossipTh + 0.25,
 				-0.25, 0, 0.5, 2, pxTh - 0.1, pxTh, pxTh + 1}
@@ -404,7 +407,7 @@ func TestVerifC09Thresholds(t *testing.T) {
 				countIHave()
 				for _, gp := range pups {
 					n := ihaveSeen[gp.p.ID()]
-					if sc(gp) < gossipTh && gp != victimFan && n > 0 {
+					if sc(gp) < gossipTh && gp != victimFan && gp != victimMesh && n > 0 {
 						fail(map[string]string{"kind": "ihave_sent_below_gossip_threshold"}, gp, "received %d IHAVE although below the gossip threshold", n)
 					}
 					if n > 0 {
